@@ -327,3 +327,48 @@ func TestC13_Histories(t *testing.T) {
 	})
 	os.Remove(journal)
 }
+
+// TestC13_ColdStart: the very first library calls of a fresh process are made concurrently.
+// (Lazily initialised package state is only cold once per process, so this unit is run as many
+// short processes; the replay of a history is a fresh process as well.)
+func TestC13_ColdStart(t *testing.T) {
+	cfg := Cfg()
+	rec := NewRecorder("C13", "cold-start", "one history per fresh process whose FIRST step is a burst of 8-32 goroutines making the process's first library calls (active, deprecated and exception ids, -only/-or-later forms, references, unknown ids, invalid text), followed by sequential repeats and the reverse pass; built with -race; same oracle as the histories check; non-trivial = every history; distinct by history")
+	defer rec.Finish(t)
+	rec.Rapid(t, func(rt *rapid.T) {
+		tb := Tbl() // reads spdxlicenses tables only; no spdxexp call happens before the burst
+		strs := []string{"MIT", "mit AND Apache-2.0", "GPL-2.0", "GPL-2.0+", "eCos-2.0", "Apache-2.0-or-later OR ISC-only",
+			"GPL-2.0-only WITH Classpath-exception-2.0", "LicenseRef-a OR DocumentRef-d:LicenseRef-b", "NOT-A-LICENSE", "MIT AND (", "Bison-exception-2.2", ""}
+		for i := 0; i < 6; i++ {
+			strs = append(strs, tb.DrawLicSpelling(rt, fmt.Sprintf("x%d", i)))
+		}
+		var h History
+		for i, s := range strs {
+			h.Calls = append(h.Calls, PCall{Fn: "extract", Expr: mkStr(s)})
+			h.Calls = append(h.Calls, PCall{Fn: "satisfies", Expr: mkStr(s), List: []StrCase{mkStr(strs[(i+1)%len(strs)]), mkStr("GPL-3.0-or-later")}})
+			h.Calls = append(h.Calls, PCall{Fn: "validate", List: []StrCase{mkStr(s), mkStr(strs[(i+3)%len(strs)])}})
+		}
+		g := rapid.IntRange(8, 32).Draw(rt, "goroutines")
+		st := PStep{Kind: "burst"}
+		for i := 0; i < g; i++ {
+			st.Burst = append(st.Burst, rapid.SliceOfN(rapid.IntRange(0, len(h.Calls)-1), 2, 8).Draw(rt, fmt.Sprintf("b%d", i)))
+		}
+		h.Steps = append(h.Steps, st)
+		for i := 0; i < len(h.Calls); i += 2 {
+			h.Steps = append(h.Steps, PStep{Kind: "repeat", Call: i})
+		}
+		if cfg.Out != "" {
+			raw, _ := json.Marshal(h)
+			j, _ := json.Marshal(Violation{Check: "c13-history", Key: "C13/crash/" + fmt.Sprintf("%x", hash64(string(raw))), Msg: "the process died while executing this history", Case: raw})
+			os.WriteFile("journal.json", j, 0o644)
+		}
+		out := checkC13(h)
+		raw, _ := json.Marshal(h)
+		rec.Case(true, string(raw), fmt.Sprintf("cold burst of %d goroutines over %d calls, then %d sequential repeats", g, len(h.Calls), len(h.Steps)-1), "cold-burst")
+		rec.Tally("goroutines", int64(g))
+		if !out.OK {
+			rec.Fail(rt, "c13-history", out.Key, out.Msg, h)
+		}
+	})
+	os.Remove("journal.json")
+}
